@@ -547,12 +547,16 @@ func (a *arrayObject) exportToArrayOrSlice(dst reflect.Value, typ reflect.Type, 
 		}
 		ctx.putTyped(a.val, typ, dst.Interface())
 		for i := 0; i < l; i++ {
-			if i >= len(a.values) {
-				break
+			var val Value
+			if i < len(a.values) {
+				val = a.values[i]
 			}
-			val := a.values[i]
 			if p, ok := val.(*valueProperty); ok {
 				val = p.get(a.val)
+			}
+			if val == nil {
+				// a hole: what the array iterator would produce
+				val = nilSafe(a.getIdx(valueInt(i), nil))
 			}
 			err := r.toReflectValue(val, dst.Index(i), ctx)
 			if err != nil {
